@@ -178,6 +178,8 @@ fn must_quote(s: &[u8]) -> bool {
         || kws.iter().any(|ss| ss.contains(&s))
         || inf.iter().any(|ss| ss.as_bytes() == unsigned)
         || ends_with_space
+        // a byte order mark is not allowed in plain scalars
+        || s.windows(3).any(|w| w == [0xEF, 0xBB, 0xBF])
         || !ns_plain_one_line(s)
 }
 
